@@ -96,6 +96,10 @@ def history(draw):
         if i and draw(st.integers(0, 3)) == 0:
             s["reuse"] = True
         steps.append(s)
+    # one history in four runs its last command inside a with block (of the facade or of the device): the
+    # error must leave the block, not be swallowed by __exit__
+    if draw(st.integers(0, 3)) == 0:
+        steps[-1]["via"] = draw(st.sampled_from(["facade_with", "device_with"]))
     return {"transport": draw(st.sampled_from(["sgio", "iscsi"])), "steps": steps}
 
 
@@ -173,6 +177,7 @@ def check_history(case):
 
     facade = SCSI(None)
     facade.device = dev
+    closed = False
     try:
         for step in case["steps"]:
             if step.get("reuse") and prev is not None:
@@ -188,7 +193,15 @@ def check_history(case):
             status, sense = step["status"], step.get("sense")
             queue[:] = [(status, sense)]
             try:
-                if step.get("via") == "facade_execute":
+                if step.get("via") == "facade_with" and step is case["steps"][-1]:
+                    closed = True
+                    with facade as s_:
+                        s_.execute(c, en_raw_sense=step["raw"])
+                elif step.get("via") == "device_with" and step is case["steps"][-1]:
+                    closed = True
+                    with dev as d_:
+                        d_.execute(c, en_raw_sense=step["raw"])
+                elif step.get("via") == "facade_execute":
                     facade.execute(c, en_raw_sense=step["raw"])
                 else:
                     dev.execute(c, en_raw_sense=step["raw"])
@@ -205,9 +218,12 @@ def check_history(case):
                 nt = True
             prev = c
     finally:
-        dev.close()
+        if not closed:
+            dev.close()
         transports.set_handler(None)
     cl = [transport]
+    if closed:
+        cl.append("with_block")
     if any(s.get("reuse") for s in case["steps"]):
         cl.append("reexecute")
     if any(s.get("via") == "facade_execute" for s in case["steps"]):
